@@ -29,10 +29,10 @@ func c19APIcases(tier string) []fw.Case {
 	var cs []fw.Case
 	for _, k := range c19Kinds {
 		for _, ca := range c19Causes {
-			cs = append(cs, fw.Mk("api/"+k+"/"+ca, c19API{Mode: "api", Kind: k, Cause: ca, Rep: scale(tier, 2, 40)}))
+			cs = append(cs, fw.Mk("api/"+k+"/"+ca, c19API{Mode: "api", Kind: k, Cause: ca, Rep: scale(tier, 2, 300)}))
 		}
 	}
-	cs = append(cs, fw.Mk("api/misc", c19API{Mode: "api", Kind: "misc", Rep: scale(tier, 2, 40)}))
+	cs = append(cs, fw.Mk("api/misc", c19API{Mode: "api", Kind: "misc", Rep: scale(tier, 2, 300)}))
 	return cs
 }
 
